@@ -10,25 +10,25 @@ open ET ET.Drv
 def runIterT (D : Derive) (t : Target) (md : Modes) (init : Res (IterState Int)) (toks : List String) : String :=
   let (opToks, finToks) := toks.span (· ≠ ";")
   let ops := opToks.filterMap parseOp
-  let fin := (finToks.drop 1).head?.bind parseFin
+  let finp := (finToks.drop 1).head?.bind parseFinPost
   let f := fun (v : Int) => toString v
   let r : Res String := init.bind fun st =>
     (T.runT D t md st ops).bind fun (st', outs) =>
-      match fin with
+      match finp with
       | none => .ok (" ".intercalate (outs.map (showOut f)))
-      | some fn => (T.finishT D t md st' fn).bind fun o =>
-          .ok (" ".intercalate (outs.map (showOut f) ++ [showOutF f o]))
+      | some (fn, post) => (T.finishT D t md st' fn).bind fun o =>
+          .ok (" ".intercalate (outs.map (showOut f) ++ [showOutF f (postFin (fun a b => decide (a < b)) post o)]))
   showRes id r
 
 def runNamesT (init : Res (IterState Name)) (toks : List String) : String :=
   let (opToks, finToks) := toks.span (· ≠ ";")
   let ops := opToks.filterMap parseOp
-  let fin := (finToks.drop 1).head?.bind parseFin
+  let finp := (finToks.drop 1).head?.bind parseFinPost
   let r : Res String := init.bind fun st =>
     match st with
     | .cursor l =>
       let (l', outs) := Cursor.run l ops
-      .ok (" ".intercalate (outs.map (showOut hex) ++ (match fin with | none => [] | some fn => [showOutF hex (Cursor.finish l' fn)])))
+      .ok (" ".intercalate (outs.map (showOut hex) ++ (match finp with | none => [] | some (fn, post) => [showOutF hex (postFin nameLt post (Cursor.finish l' fn))])))
     | _ => .ok "?"
   showRes id r
 
